@@ -177,6 +177,29 @@ def main():
         for op in ch:
             kinds[op[0]] = kinds.get(op[0], 0) + 1
         r.count(("chain", repr(ch), len(rows)))
+        if ok and visible_ok:
+            # interleaved iteration, BEFORE any stream of this chain has been read: two iterations of the same stream overlap in
+            # time (one is started, another runs to its
+            # end, the first is resumed); each yields the stream's rows, and so does every later iteration
+            j = rng.randrange(len(streams))
+            s, sg = streams[j]
+            try:
+                w = reference(hd, rows, ch[:j])
+                it1 = iter(s)
+                head = [next(it1)] if w else []
+                mid = rows_of(s, sg)
+                it2 = iter(s)
+                both = list(zip(it1, it2)) if rng.random() < 0.5 else None
+                rest1 = list(it1)
+                norm = (lambda recs: [[int(v)] for v in recs]) if sg else (lambda recs: [[int(x) for x in v] for v in recs])
+                first = norm(head + ([p[0] for p in both] if both is not None else []) + rest1)
+                after = rows_of(s, sg)
+                if mid != w or after != w or first != w:
+                    direct.append({"law": "iterations of one stream that overlap in time each yield its rows, and so does every later one",
+                                   "chain": repr(ch), "stream_after_steps": j, "resumed": first, "between": mid, "afterwards": after,
+                                   "expected": w})
+            except Exception as e:  # noqa
+                direct.append({"law": "interleaved iteration of a stream", "chain": repr(ch), "step": j, "error": repr(e)})
         if ok:
             try:
                 got = rows_of(d, single)
@@ -205,7 +228,6 @@ def main():
                 except Exception as e:  # noqa
                     direct.append({"law": "intermediate stream iterable", "chain": repr(ch), "step": j, "error": repr(e)})
                     break
-
     # ---- one nested sequence level: reference by name, direct oracle only
     outer = SequenceType("o")
     outer["id"] = BaseType("id")
